@@ -8,7 +8,7 @@ META = {
                    'Type discriminants, mask/shift algebra, heap-box alignment, every construction site of an '
                    'Object word, encoder/decoder pairs (same shift, signed shift for signed payload, field widths), '
                    'the heap/immediate partition used by is_heap_allocated/free/constructors, the shape of equality, '
-                   'and the range check at the integer encoder. Finite tables are enumerated completely.',
+                   'and the range check at the integer encoder. Finite tables are enumerated completely. R15.9: the decoders of immediates run only behind a test of the matching tag.',
     'exhaustive': True,
     'not_decided': ['round trip of every 64-bit word as an executed fact (we check the algebra of the constants and '
                     'the shapes of encoder/decoder, not 2^64 values)', "allocator alignment guarantees are std's contract"],
@@ -313,3 +313,6 @@ def run(ctx, rep):
     c10.check_dedup(ctx, rep, 'R15.7')
     rep.rule('R15.8', 'the pool de-duplicates floats with ==, which merges 0.0 and -0.0: only sound while every pooled value is a literal payload as written (the lexer produces no sign)')
     c10.check_literal_constants(ctx, rep, 'R15.8')
+    rep.rule('R15.9', 'a value is decoded only as what it is: every as_int / as_bool / as_function is preceded on every path by a test that the object has that tag (the decoders only shift the word: `ja` would read as 1, null as 0)')
+    from rules import unsafe_inv
+    unsafe_inv.check_immediates(ctx, rep, 'R15.9')
